@@ -365,11 +365,14 @@ def main():
           'evaluations': 0, 'distinct_nontrivial': 0, 'samples': [], 'trace_events': 0, 'trace_states': 0}
     ctx = {'pid': pid, 'tier': tier, 'seed': seed}
     viol = []
+    only = [x for x in os.environ.get('VERIF_ONLY', '').split(',') if x]   # development aid: run the named jobs only (no evidence is written)
     try:
         if a.replay:
             return replay(pid, a.replay, chk)
         for job in chk['jobs']:
             if tier not in job.get('tiers', ('quick', 'thorough')):
+                continue
+            if only and (job.get('name') or job.get('cfg')) not in only:
                 continue
             log('[%s] job %s' % (pid, job.get('name') or job.get('cfg')))
             if job['type'] == 'tlc':
@@ -404,7 +407,8 @@ def main():
         log('VIOLATION property=%s replay=%s' % (pid, path))
         log('  ' + v['what'][:500])
         rc = 1
-    write_evidence(pid, chk, tier, seed, ev, len(unknown), time.time() - t0, [f['id'] for _, f in known])
+    if not only:
+        write_evidence(pid, chk, tier, seed, ev, len(unknown), time.time() - t0, [f['id'] for _, f in known])
     log('[%s] %s tier: %d violation(s), %d known finding(s), %.0fs' % (pid, tier, len(unknown), len(known), time.time() - t0))
     return rc
 
